@@ -118,6 +118,75 @@ func Load(dir string) (*Engine, error) {
 	}
 	overlay := map[string][]byte{}
 	var sigNotes []string
+	// parameter objects and dropped results first: what is left may be a permutation of the reviewed signature
+	for round := 0; round < 4; round++ {
+		ov, nts := expandParamObjects(e.Pkgs, readSource(overlay))
+		if len(ov) == 0 {
+			sigNotes = append(sigNotes, nts...)
+			break
+		}
+		merged := map[string][]byte{}
+		for k, v := range overlay {
+			merged[k] = v
+		}
+		for k, v := range ov {
+			merged[k] = v
+		}
+		if d := os.Getenv("ALLIANCECHECK_DEBUG_INLINE"); strings.HasPrefix(d, "/") {
+			for k, v := range ov {
+				_ = os.WriteFile(filepath.Join(d, fmt.Sprintf("po%d_%s", round, filepath.Base(k))), v, 0o644)
+			}
+		}
+		e2, err2 := loadOverlay(dir, merged)
+		if err2 != nil {
+			sigNotes = append(sigNotes, "parameter-object expansion abandoned: "+strings.SplitN(err2.Error(), "\n", 3)[0])
+			break
+		}
+		e, overlay = e2, merged
+		sigNotes = append(sigNotes, nts...)
+	}
+	if ov, nts := restoreDroppedResults(e.Pkgs, readSource(overlay)); len(ov) > 0 {
+		merged := map[string][]byte{}
+		for k, v := range overlay {
+			merged[k] = v
+		}
+		for k, v := range ov {
+			merged[k] = v
+		}
+		if d := os.Getenv("ALLIANCECHECK_DEBUG_INLINE"); strings.HasPrefix(d, "/") {
+			for k, v := range ov {
+				_ = os.WriteFile(filepath.Join(d, "dr_"+filepath.Base(k)), v, 0o644)
+			}
+		}
+		if e2, err2 := loadOverlay(dir, merged); err2 == nil {
+			e, overlay = e2, merged
+			sigNotes = append(sigNotes, nts...)
+		} else {
+			sigNotes = append(sigNotes, "result restoration abandoned: "+strings.SplitN(err2.Error(), "\n", 3)[0])
+		}
+	} else {
+		sigNotes = append(sigNotes, nts...)
+	}
+	if ov, nts := restoreNarrowedParams(e.Pkgs, readSource(overlay)); len(ov) > 0 {
+		merged := map[string][]byte{}
+		for k, v := range overlay {
+			merged[k] = v
+		}
+		for k, v := range ov {
+			merged[k] = v
+		}
+		if d := os.Getenv("ALLIANCECHECK_DEBUG_INLINE"); strings.HasPrefix(d, "/") {
+			for k, v := range ov {
+				_ = os.WriteFile(filepath.Join(d, "np_"+filepath.Base(k)), v, 0o644)
+			}
+		}
+		if e2, err2 := loadOverlay(dir, merged); err2 == nil {
+			e, overlay = e2, merged
+			sigNotes = append(sigNotes, nts...)
+		} else {
+			sigNotes = append(sigNotes, "parameter widening abandoned: "+strings.SplitN(err2.Error(), "\n", 3)[0])
+		}
+	}
 	if ov, nts := normaliseSignatures(e.Pkgs, readSource(overlay)); len(ov) > 0 {
 		if d := os.Getenv("ALLIANCECHECK_DEBUG_INLINE"); strings.HasPrefix(d, "/") {
 			for k, v := range ov {
@@ -195,6 +264,19 @@ func Load(dir string) (*Engine, error) {
 	cur := e
 	inlSeq = 0
 	for round := 0; round < 4; round++ {
+		if nov, nn := inlineNamedConds(cur.Pkgs, readSource(overlay)); len(nov) > 0 {
+			merged := map[string][]byte{}
+			for k, v := range overlay {
+				merged[k] = v
+			}
+			for k, v := range nov {
+				merged[k] = v
+			}
+			if nx, err := loadOverlay(dir, merged); err == nil {
+				cur, overlay = nx, merged
+				notes = append(notes, nn...)
+			}
+		}
 		if hov, hn := hoistCondCalls(cur.Pkgs, readSource(overlay)); len(hov) > 0 {
 			merged := map[string][]byte{}
 			for k, v := range overlay {
